@@ -134,6 +134,8 @@ CORPUS = [
     ("C14", "R-C14-modes", B, "sasmodels/models/core_shell_bicelle.c", "    case 5: // half diagonal\n", "", "case removed (falls into case 4's return)"),
     ("C14", "R-C14-eqvol", B, "sasmodels/models/cylinder.c", "    return cbrt(M_PI*radius*radius*length/M_4PI_3);", "    return cbrt(M_PI*radius*radius*length/M_PI);", "eq. volume radius"),
     ("C14", "R-C14-interleave", B, "sasmodels/kernel_iq.c", "            result[2*q_index+0] += weight * F2;\n            result[2*q_index+1] += weight * F1;", "            result[2*q_index+0] += weight * F1;\n            result[2*q_index+1] += weight * F2;", "interleave swapped"),
+    ("C14", "R-C14-definite-init", B, "sasmodels/models/parallelepiped.c", "        length  = length_1;\n", "", "one branch no longer sets the cylinder length"),
+    ("C14", None, T, "sasmodels/models/parallelepiped.c", "    double r_equiv, length;", "    double r_equiv = 0.0, length = 0.0;", "initialised at the declaration"),
     ("C14", "R-C14-order-select", B, "sasmodels/models/core_shell_parallelepiped.c", "            length_2 = length_1;\n", "", "old minimum forgotten"),
     ("C14", None, T, "sasmodels/models/core_shell_parallelepiped.c", "        if (lengths[ilen] < length_1) {", "        if (length_1 > lengths[ilen]) {", "comparison written the other way round"),
     # ---- C15 ------------------------------------------------------------
@@ -195,7 +197,7 @@ def _run_variant(args):
         env = dict(os.environ, SASMODELS_REPO=tree, SA_EVIDENCE_DIR=os.path.join(scratch, "ev"), SA_SCRATCH=scratch,
                    PYTHONDONTWRITEBYTECODE="1", SA_SELFTEST_CHILD="1")
         proc = subprocess.run([sys.executable, "-m", "sa.main", prop, "--tier", "quick"], cwd=VERIF, env=env,
-                              capture_output=True, text=True, timeout=600)
+                              capture_output=True, text=True, timeout=1200)
         out = proc.stdout
         fired = set()
         rp = os.path.join(scratch, "ev", "replay", "%s.json" % prop)
@@ -227,7 +229,7 @@ def _run_seed(args):
         env = dict(os.environ, SASMODELS_REPO=tree, SA_EVIDENCE_DIR=os.path.join(scratch, "ev"), SA_SCRATCH=scratch,
                    PYTHONDONTWRITEBYTECODE="1", SA_SELFTEST_CHILD="1")
         proc = subprocess.run([sys.executable, "-m", "sa.main", prop, "--tier", "quick"], cwd=VERIF, env=env,
-                              capture_output=True, text=True, timeout=600)
+                              capture_output=True, text=True, timeout=1200)
         fired = set()
         rp = os.path.join(scratch, "ev", "replay", "%s.json" % prop)
         if os.path.exists(rp):
